@@ -96,18 +96,19 @@ const unitSat = 1_000_000
 func margin(n int) int64 { return 400_000 + 20_000*int64(n) }
 
 type spWorld struct {
-	e       *env
-	prop    string
-	nbase   int
-	txOf    map[int]*wire.MsgTx   // base coin -> funding tx
-	opOf    map[int]wire.OutPoint // coin -> outpoint
-	outOf   map[int]*wire.TxOut   // coin -> output
-	coinOf  map[wire.OutPoint]int
-	sendTx  map[int]*wire.MsgTx // send number -> created tx
-	foreign []byte
-	diffs   [][4]interface{}
-	n       int
-	tagSeed string
+	e        *env
+	prop     string
+	nbase    int
+	txOf     map[int]*wire.MsgTx   // base coin -> funding tx
+	opOf     map[int]wire.OutPoint // coin -> outpoint
+	outOf    map[int]*wire.TxOut   // coin -> output
+	coinOf   map[wire.OutPoint]int
+	sendTx   map[int]*wire.MsgTx // send number -> created tx
+	sendAcct map[int]int
+	foreign  []byte
+	diffs    [][4]interface{}
+	n        int
+	tagSeed  string
 }
 
 func (w *spWorld) add(class, what string, obs, exp interface{}) {
@@ -117,7 +118,10 @@ func (w *spWorld) add(class, what string, obs, exp interface{}) {
 // which classes a property owns
 var spOwns = map[string]map[string]bool{
 	"C06": {"inputs": true, "sig": true, "refusal": true, "eligibility": true, "psbt-refusal": true},
-	"C20": {"state": true, "resend": true, "answer": true},
+	"C20": {"state": true, "balance": true, "resend": true, "answer": true},
+	// wallet-level passes of the transaction-store properties
+	"C01": {"balance": true},
+	"C13": {"history": true},
 }
 
 func lockID(id int) wtxmgr.LockID {
@@ -139,7 +143,7 @@ func replaySpend(idx int, line []byte, prop string, seed int, root string, rep *
 	}
 	defer e.close()
 	w := &spWorld{e: e, prop: prop, nbase: tr.NBase, txOf: map[int]*wire.MsgTx{}, opOf: map[int]wire.OutPoint{},
-		outOf: map[int]*wire.TxOut{}, coinOf: map[wire.OutPoint]int{}, sendTx: map[int]*wire.MsgTx{},
+		outOf: map[int]*wire.TxOut{}, coinOf: map[wire.OutPoint]int{}, sendTx: map[int]*wire.MsgTx{}, sendAcct: map[int]int{},
 		tagSeed: fmt.Sprintf("sp-%d-%d", idx, seed)}
 	report := func(step int, d [4]interface{}) {
 		last := "init"
@@ -524,6 +528,7 @@ func (w *spWorld) apply(st *spStep, a *spArgs, rep *common.Report) error {
 			} else {
 				w.checkCreated(what, tx, amount, a.Ins, true, a.Elig, a)
 			}
+			w.sendAcct[a.N] = a.Acct
 			w.recordSend(a.N, tx)
 		}
 	case "FundOwn":
@@ -657,7 +662,7 @@ func (w *spWorld) observe(exp *spObs) {
 	res, err := e.w.ListUnspent(0, 9999999, "")
 	w.n++
 	if err != nil {
-		w.add("state", "ListUnspent", err.Error(), "ok")
+		w.add("balance", "ListUnspent", err.Error(), "ok")
 	} else {
 		var ops []wire.OutPoint
 		for _, r := range res {
@@ -665,16 +670,16 @@ func (w *spWorld) observe(exp *spObs) {
 			ops = append(ops, wire.OutPoint{Hash: *h, Index: r.Vout})
 		}
 		if got := w.coinIDs(ops); fmt.Sprint(got) != fmt.Sprint(sorted(exp.Spendable)) {
-			w.add("state", "spendable outputs (ListUnspent)", got, sorted(exp.Spendable))
+			w.add("balance", "spendable outputs (ListUnspent)", got, sorted(exp.Spendable))
 		}
 	}
 	for mc, cs := range exp.Bal {
 		bal, err := e.w.CalculateBalance(int32(mc))
 		w.n++
 		if err != nil {
-			w.add("state", fmt.Sprintf("CalculateBalance(%d)", mc), err.Error(), "ok")
+			w.add("balance", fmt.Sprintf("CalculateBalance(%d)", mc), err.Error(), "ok")
 		} else if int64(bal) != w.sumVal(cs) {
-			w.add("state", fmt.Sprintf("CalculateBalance(%d)", mc), int64(bal), fmt.Sprintf("%d (coins %v)", w.sumVal(cs), sorted(cs)))
+			w.add("balance", fmt.Sprintf("CalculateBalance(%d)", mc), int64(bal), fmt.Sprintf("%d (coins %v)", w.sumVal(cs), sorted(cs)))
 		}
 	}
 	// created transactions
@@ -708,6 +713,7 @@ func (w *spWorld) observe(exp *spObs) {
 	if err != nil {
 		w.add("state", "view", err.Error(), nil)
 	}
+	w.observeHistory(exp)
 	// leases
 	ls, err := e.w.ListLeasedOutputs()
 	w.n++
@@ -781,4 +787,164 @@ func (w *spWorld) checkResend(exp *spObs) {
 			}
 		}
 	}
+}
+
+// observeHistory compares the wallet's transaction listing (GetTransactions in
+// both directions, ListAllTransactions) with the model: every known
+// transaction exactly once, under the block that confirms it or as
+// unconfirmed, with its own inputs (amount, account) and own outputs
+// (account, branch); nothing else.  (C13, wallet-level pass.)
+func (w *spWorld) observeHistory(exp *spObs) {
+	e := w.e
+	type want struct {
+		name   string
+		height int32 // -1 = unconfirmed
+		tx     *wire.MsgTx
+	}
+	known := map[chainhash.Hash]*want{}
+	stOf := func(c int) int {
+		if c-1 < len(exp.St) {
+			if f, ok := exp.St[c-1].(float64); ok {
+				return int(f)
+			}
+		}
+		return -1
+	}
+	for c := 1; c <= w.nbase; c++ {
+		s := stOf(c)
+		if s < 0 {
+			continue
+		}
+		h := int32(-1)
+		if s > 0 {
+			h = int32(initialTip + s)
+		}
+		tx := w.txOf[c]
+		known[tx.TxHash()] = &want{fmt.Sprintf("funding transaction of coin %d", c), h, tx}
+	}
+	for i, s := range exp.Sends {
+		tx := w.sendTx[i+1]
+		if tx == nil {
+			continue
+		}
+		h := int32(-1)
+		if f, ok := s.Status.(float64); ok && f > 0 {
+			h = int32(initialTip + int(f))
+		}
+		known[tx.TxHash()] = &want{fmt.Sprintf("created transaction #%d", i+1), h, tx}
+	}
+	describe := func(sum *wallet.TransactionSummary) string {
+		var ins, outs []string
+		for _, in := range sum.MyInputs {
+			ins = append(ins, fmt.Sprintf("in%d:acct%d:%d", in.Index, in.PreviousAccount, int64(in.PreviousAmount)))
+		}
+		for _, o := range sum.MyOutputs {
+			outs = append(outs, fmt.Sprintf("out%d:acct%d:internal=%v", o.Index, o.Account, o.Internal))
+		}
+		sort.Strings(ins)
+		sort.Strings(outs)
+		return fmt.Sprintf("%v %v fee=%d", ins, outs, int64(sum.Fee))
+	}
+	expect := func(k *want) string {
+		var ins, outs []string
+		var sumIn, sumOut int64
+		all := true
+		for i, in := range k.tx.TxIn {
+			c, ok := w.coinOf[in.PreviousOutPoint]
+			if !ok {
+				all = false
+				continue
+			}
+			acct := w.acctOf(c, exp)
+			ins = append(ins, fmt.Sprintf("in%d:acct%d:%d", i, acct, w.outOf[c].Value))
+			sumIn += w.outOf[c].Value
+		}
+		for i, o := range k.tx.TxOut {
+			sumOut += o.Value
+			c, ok := w.coinOf[wire.OutPoint{Hash: k.tx.TxHash(), Index: uint32(i)}]
+			if !ok {
+				continue
+			}
+			outs = append(outs, fmt.Sprintf("out%d:acct%d:internal=%v", i, w.acctOf(c, exp), c > w.nbase))
+		}
+		sort.Strings(ins)
+		sort.Strings(outs)
+		fee := int64(0)
+		if all && len(k.tx.TxIn) > 0 && len(ins) == len(k.tx.TxIn) {
+			fee = sumIn - sumOut
+		}
+		return fmt.Sprintf("%v %v fee=%d", ins, outs, fee)
+	}
+	for dir, rng := range [][2]int32{{0, -1}, {-1, 0}} {
+		name := []string{"GetTransactions(0..unmined)", "GetTransactions(unmined..0)"}[dir]
+		res, err := e.w.GetTransactions(wallet.NewBlockIdentifierFromHeight(rng[0]), wallet.NewBlockIdentifierFromHeight(rng[1]), "", nil)
+		w.n++
+		if err != nil {
+			w.add("history", name, err.Error(), "ok")
+			continue
+		}
+		seen := map[chainhash.Hash]int{}
+		visit := func(sum *wallet.TransactionSummary, height int32) {
+			seen[*sum.Hash]++
+			k := known[*sum.Hash]
+			if k == nil {
+				if height >= 0 && height <= int32(initialTip) {
+					return // set-up of the environment
+				}
+				w.add("history", name+": lists a transaction the wallet should not know", sum.Hash.String(), "absent")
+				return
+			}
+			if height != k.height {
+				w.add("history", name+": "+k.name+" listed at height", height, k.height)
+			}
+			if got, wantS := describe(sum), expect(k); got != wantS {
+				w.add("history", name+": details of "+k.name, got, wantS)
+			}
+		}
+		last := int32(-2)
+		for bi := range res.MinedTransactions {
+			b := &res.MinedTransactions[bi]
+			if bi > 0 {
+				if (dir == 0 && b.Height <= last) || (dir == 1 && b.Height >= last) {
+					w.add("history", name+": block order", fmt.Sprint(last, " then ", b.Height), "monotone")
+				}
+			}
+			last = b.Height
+			for ti := range b.Transactions {
+				visit(&b.Transactions[ti], b.Height)
+			}
+		}
+		for ti := range res.UnminedTransactions {
+			visit(&res.UnminedTransactions[ti], -1)
+		}
+		for h, k := range known {
+			if seen[h] != 1 {
+				w.add("history", name+": "+k.name+" listed", fmt.Sprintf("%d times", seen[h]), "once")
+			}
+		}
+	}
+	// the JSON-style listing names the same set of transactions
+	lst, err := e.w.ListAllTransactions()
+	w.n++
+	if err != nil {
+		w.add("history", "ListAllTransactions", err.Error(), "ok")
+		return
+	}
+	names := map[string]bool{}
+	for _, r := range lst {
+		names[r.TxID] = true
+	}
+	for h, k := range known {
+		if !names[h.String()] {
+			w.add("history", "ListAllTransactions: "+k.name, "missing", "listed")
+		}
+	}
+}
+
+// acctOf returns the account a coin belongs to (change coins: the account of the request).
+func (w *spWorld) acctOf(c int, exp *spObs) int {
+	if c <= w.nbase {
+		return int(baseAttrs[c].acct)
+	}
+	return w.sendAcct[c-w.nbase]
 }
